@@ -82,6 +82,7 @@ func c01(p *core.Program, r *core.Report) {
 	// "any decoder": the IGC parser grows its flat array fix by fix (the other decoders go through SetCoords, Push or
 	// readers that size the array as count*stride) - the rule is C19's, the obligation is also this property's
 	wholeFixRule(p, r, "fix-appended-whole")
+	appendHelpersRule(p, r, "append-helpers-return-dst")
 
 	// ---- rule 1: stride-mismatch rejection guards every store of a caller-supplied coordinate
 	const r1 = "stride-guard"
@@ -544,13 +545,19 @@ func c02(p *core.Program, r *core.Report) {
 				bad = "Reverse writes " + t + " at " + p.Pos(w.Event.Instr.Pos())
 			}
 		}
-		if len(ws) == 0 {
+		if len(ws) == 0 && !strings.Contains(core.FuncName(e), "MultiPoint") {
+			// (every part of a MultiPoint is one coordinate: reversing within parts may legitimately be a no-op)
 			bad = "Reverse writes nothing"
 		}
 		r.Check(bad == "", r2, core.FuncName(e), p.Pos(e.Pos()), true, fmt.Sprintf("%d write sites, all on flatCoords elements", len(ws)), bad)
 	}
 
 	strideRule(p, r, "reverse-whole-coordinates", []strideTarget{{"", "reverse1", "all"}, {"", "reverse2", "all"}, {"", "reverse3", "all"}})
+	// the kernels behind Reverse walk ends/endss with a running lower bound: the same chaining obligation as the
+	// measures of C09 (a part skipped without advancing the bound shifts every later part)
+	chainRule(p, r, "reverse-offset-chain", 2, func(o *types.Func) bool {
+		return o.Pkg() != nil && o.Pkg().Path() == mod && strings.HasPrefix(o.Name(), "reverse")
+	})
 
 	// ---- rule 3: Swap exchanges whole values
 	const r3 = "swap-complete"
@@ -713,4 +720,116 @@ func c02(p *core.Program, r *core.Report) {
 		r.Check(len(m.ParamCaptures(fn)) > 0, r6, short(fn)+"/positive-control", p.Pos(fn.Pos()), true, "the capture of the pushed geometry pointers is seen", "the capture query no longer sees GeometryCollection.Push storing its arguments: the query is blind")
 	}
 	r.Assume("that Polygon(i)/LineString(i) rebasing arithmetic returns exactly the i-th pushed part for every history is not decided")
+}
+
+// appendHelpersRule (C01): a function that grows a slice it is handed returns that slice on every successful path.
+func appendHelpersRule(p *core.Program, r *core.Report, rule string) {
+	r.Rule(rule, "in the geometry and codec packages a function that takes a slice parameter and returns, on some successful path, that parameter grown or unchanged (append-style: `dst = f(dst, ...)`) returns a value derived from that parameter on every successful path (a return whose error result is the nil constant, or any return of a function without an error result): an accumulator that is replaced by a fresh slice on one path (`return []float64{}, nil` for an empty part) forgets what was accumulated, and the offsets recorded so far point past the end", 3)
+	rels := append([]string{""}, decoderPkgs...)
+	rels = append(rels, "encoding/geojson", "encoding/wkt", "encoding/igc")
+	// appendStyle: functions already known to hand back (a growth of) a slice parameter; computed to a fixpoint so
+	// that deflate3 -> deflate2 -> deflate1 -> deflate0 are all recognised
+	appendStyle := map[*ssa.Function]bool{}
+	for round := 0; round < 4; round++ {
+		n0 := len(appendStyle)
+		appendHelpersPass(p, nil, rule, rels, appendStyle)
+		if len(appendStyle) == n0 {
+			break
+		}
+	}
+	appendHelpersPass(p, r, rule, rels, appendStyle)
+}
+
+func appendHelpersPass(p *core.Program, r *core.Report, rule string, rels []string, appendStyle map[*ssa.Function]bool) {
+	for _, fn := range pkgFuncs(p, rels...) {
+		res := fn.Signature.Results()
+		if fn.Parent() != nil || res.Len() == 0 || fn.Blocks == nil {
+			continue
+		}
+		for _, prm := range fn.Params {
+			if _, isSl := prm.Type().Underlying().(*types.Slice); !isSl {
+				continue
+			}
+			// result positions of the same type
+			for ri := 0; ri < res.Len(); ri++ {
+				if !types.Identical(res.At(ri).Type(), prm.Type()) {
+					continue
+				}
+				inProgress := map[ssa.Value]bool{}
+				var derived func(v ssa.Value, depth int) bool
+				derived = func(v ssa.Value, depth int) bool {
+					if depth > 12 {
+						return false
+					}
+					if inProgress[v] {
+						return true // a loop-carried accumulator: decided by its other edges
+					}
+					inProgress[v] = true
+					defer delete(inProgress, v)
+					switch x := v.(type) {
+					case *ssa.Parameter:
+						return x == prm
+					case *ssa.Slice:
+						return derived(x.X, depth+1)
+					case *ssa.ChangeType:
+						return derived(x.X, depth+1)
+					case *ssa.Phi:
+						for _, e := range x.Edges {
+							if e != ssa.Value(x) && !derived(e, depth+1) {
+								return false
+							}
+						}
+						return true
+					case *ssa.Call:
+						if eng.BuiltinName(x) == "append" && len(x.Call.Args) > 0 {
+							return derived(x.Call.Args[0], depth+1)
+						}
+						// another append-style helper of the module handed the accumulator
+						if callee := x.Call.StaticCallee(); callee != nil && core.InModule(callee) && appendStyle[callee] {
+							for ai, a := range x.Call.Args {
+								if ai < len(callee.Params) && types.Identical(callee.Params[ai].Type(), prm.Type()) && derived(a, depth+1) {
+									return true
+								}
+							}
+						}
+					case *ssa.Extract:
+						return derived(x.Tuple, depth+1)
+					}
+					return false
+				}
+				errIdx := -1
+				if eng.IsErrorType(res.At(res.Len() - 1).Type()) {
+					errIdx = res.Len() - 1
+				}
+				var good, bad []*ssa.Return
+				for _, b := range fn.Blocks {
+					ret, ok := b.Instrs[len(b.Instrs)-1].(*ssa.Return)
+					if !ok {
+						continue
+					}
+					if errIdx >= 0 && !eng.IsNilConst(ret.Results[errIdx]) {
+						continue // an error return (or one whose error is not known to be nil)
+					}
+					if derived(ret.Results[ri], 0) {
+						good = append(good, ret)
+					} else {
+						bad = append(bad, ret)
+					}
+				}
+				if len(good) == 0 {
+					continue // not append-style in this parameter
+				}
+				appendStyle[fn] = true
+				if r == nil {
+					continue
+				}
+				key := fmt.Sprintf("%s/%s", short(fn), prm.Name())
+				if len(bad) > 0 {
+					r.Bad(rule, key, p.Pos(bad[0].Pos()), fmt.Sprintf("the successful return at %s hands back %s instead of the accumulated %s: whatever the caller had collected is dropped on this path", p.Pos(bad[0].Pos()), bad[0].Results[ri], prm.Name()))
+				} else {
+					r.OK(rule, key, p.Pos(fn.Pos()), true, fmt.Sprintf("%d successful return(s), all derived from %s", len(good), prm.Name()))
+				}
+			}
+		}
+	}
 }
